@@ -239,7 +239,7 @@ func variant(r *run.Rng, base model.Tree) (model.Tree, string) {
 	hasCoords := func(n model.Tree, _ *model.Tree) bool { return len(n.Coords) > 0 }
 	curves := func(n model.Tree, _ *model.Tree) bool { return n.Type == geom.TypeLineString && len(n.Coords) > 0 }
 	for tries := 0; tries < 12; tries++ {
-		switch r.Intn(9) {
+		switch r.Intn(13) {
 		case 0: // one ordinate by one ulp
 			ps := nodesOfType(v, hasCoords)
 			if len(ps) == 0 {
@@ -332,6 +332,45 @@ func variant(r *run.Rng, base model.Tree) (model.Tree, string) {
 			n := at(&v, ps[r.Intn(len(ps))])
 			n.Kids = append(n.Kids, clone(n.Kids[r.Intn(len(n.Kids))]))
 			return v, "one member duplicated"
+		case 9, 10: // drop the last (9) or first (10) member / ring of a node
+			which := "last"
+			ps := nodesOfType(v, func(n model.Tree, _ *model.Tree) bool { return len(n.Kids) >= 1 })
+			if len(ps) == 0 {
+				continue
+			}
+			n := at(&v, ps[r.Intn(len(ps))])
+			if n.Type == geom.TypePolygon && len(n.Kids) == 1 {
+				continue // a polygon without rings is the empty polygon: covered by "emptiness"
+			}
+			if r.Bool() || n.Type == geom.TypePolygon {
+				n.Kids = n.Kids[:len(n.Kids)-1]
+			} else {
+				n.Kids, which = n.Kids[1:], "first"
+			}
+			return v, "the " + which + " member or ring dropped"
+		case 11: // one more ring: the last ring of a polygon appended again
+			ps := nodesOfType(v, func(n model.Tree, _ *model.Tree) bool { return n.Type == geom.TypePolygon && len(n.Kids) >= 1 })
+			if len(ps) == 0 {
+				continue
+			}
+			n := at(&v, ps[r.Intn(len(ps))])
+			n.Kids = append(n.Kids, clone(n.Kids[len(n.Kids)-1]))
+			return v, "one ring appended"
+		case 12: // one vertex fewer or one repeated vertex more at the end of a curve
+			ps := nodesOfType(v, func(n model.Tree, p *model.Tree) bool {
+				return n.Type == geom.TypeLineString && len(n.Coords) > 0 && (p == nil || p.Type != geom.TypePolygon)
+			})
+			if len(ps) == 0 {
+				continue
+			}
+			n := at(&v, ps[r.Intn(len(ps))])
+			d := n.CT.Dimension()
+			if r.Bool() && len(n.Coords) >= 3*d {
+				n.Coords = append([]float64(nil), n.Coords[:len(n.Coords)-d]...)
+				return v, "last vertex of a curve dropped"
+			}
+			n.Coords = append(append([]float64(nil), n.Coords...), n.Coords[len(n.Coords)-d:]...)
+			return v, "last vertex of a curve repeated"
 		}
 	}
 	return v, "identical copy"
